@@ -124,25 +124,34 @@ class BitVec:
         n = int(BitVec.lift(n).value()) if not isinstance(n, int) else n
         return BitVec(list(self.bits[n:]) + [0] * n)
 
-    def __add__(self, o: Any) -> "BitVec":
+    def __add__(self, o: Any) -> Any:
+        if isinstance(o, Lin):
+            return o + self
         o = BitVec.lift(o)
         if self.is_const() and o.is_const():
             return BitVec.const(self.value() + o.value())
         # carry-free when no position can be 1 in both
         if all(a == 0 or b == 0 for a, b in zip(self.bits, o.bits)):
             return self | o
-        return BitVec.top()
+        return Lin.of(self) + Lin.of(o)
 
     __radd__ = __add__
 
-    def __sub__(self, o: Any) -> "BitVec":
+    def __sub__(self, o: Any) -> Any:
+        if isinstance(o, Lin):
+            return Lin.of(self) - o
         o = BitVec.lift(o)
         if self.is_const() and o.is_const():
             return BitVec.const(self.value() - o.value())
-        return BitVec.top()
+        return Lin.of(self) - Lin.of(o)
 
-    def __rsub__(self, o: Any) -> "BitVec":
-        return BitVec.lift(o).__sub__(self)
+    def __rsub__(self, o: Any) -> Any:
+        return Lin.of(o) - Lin.of(self)
+
+    def __neg__(self) -> Any:
+        if self.is_const():
+            return -self.value()
+        return Lin(0, ((-1, self),))
 
     def __mul__(self, o: Any) -> "BitVec":
         o = BitVec.lift(o)
@@ -221,3 +230,89 @@ def _xor(a: Any, b: Any) -> Any:
 
 def show(v: BitVec, width: int) -> list[str]:
     return [show_bit(b) for b in v.bits[:width]]
+
+
+class Lin:
+    """Linear expression const + sum(coef * bitvector-as-unsigned-integer): used for addresses such as pc + len - offset."""
+    __slots__ = ("c", "terms")
+
+    def __init__(self, c: int, terms: tuple):
+        self.c = c
+        self.terms = tuple(t for t in terms if t[0] != 0)
+
+    @staticmethod
+    def of(x: Any) -> "Lin":
+        if isinstance(x, Lin):
+            return x
+        if isinstance(x, bool):
+            return Lin(int(x), ())
+        if isinstance(x, int):
+            return Lin(x, ())
+        if isinstance(x, BitVec):
+            if x.is_const():
+                return Lin(x.value(), ())
+            return Lin(0, ((1, x),))
+        v = getattr(x, "value", None)
+        if isinstance(v, int):
+            return Lin(v, ())
+        raise TypeError(f"cannot lift {type(x).__name__} to Lin")
+
+    def _merge(self, o: "Lin", sign: int) -> "Lin":
+        acc: dict = {}
+        for k, v in self.terms:
+            acc[v] = acc.get(v, 0) + k
+        for k, v in o.terms:
+            acc[v] = acc.get(v, 0) + sign * k
+        return Lin(self.c + sign * o.c, tuple((k, v) for v, k in acc.items()))
+
+    def __add__(self, o: Any) -> "Lin":
+        return self._merge(Lin.of(o), 1)
+
+    __radd__ = __add__
+
+    def __sub__(self, o: Any) -> "Lin":
+        return self._merge(Lin.of(o), -1)
+
+    def __rsub__(self, o: Any) -> "Lin":
+        return Lin.of(o)._merge(self, -1)
+
+    def __neg__(self) -> "Lin":
+        return Lin(-self.c, tuple((-k, v) for k, v in self.terms))
+
+    def is_const(self) -> bool:
+        return not self.terms
+
+    def __eq__(self, o: object) -> bool:
+        if isinstance(o, (Lin, int, BitVec)):
+            o2 = Lin.of(o)
+            return self.c == o2.c and sorted((k, v.bits) for k, v in self.terms) == sorted((k, v.bits) for k, v in o2.terms)
+        return NotImplemented
+
+    def __hash__(self) -> int:
+        return hash((self.c, tuple(sorted((k, v.bits) for k, v in self.terms))))
+
+    def _bitop(self, o: Any) -> BitVec:
+        if self.is_const():
+            return BitVec.const(self.c)
+        return BitVec.top()
+
+    def __and__(self, o: Any) -> BitVec:
+        if self.is_const():
+            return BitVec.const(self.c) & o
+        return BitVec.top() & o
+
+    __rand__ = __and__
+
+    def __or__(self, o: Any) -> BitVec:
+        if self.is_const():
+            return BitVec.const(self.c) | o
+        return BitVec.top() | o
+
+    __ror__ = __or__
+
+    def __repr__(self) -> str:
+        parts = [hex(self.c)] if self.c or not self.terms else []
+        for k, v in self.terms:
+            nm = v.bits[0][0] if isinstance(v.bits[0], tuple) and len(v.bits[0]) == 3 else "?"
+            parts.append(("+" if k > 0 else "-") + (f"{abs(k)}*" if abs(k) != 1 else "") + nm)
+        return "Lin(" + " ".join(parts) + ")"
